@@ -63,6 +63,17 @@ func fsProvSim(r *simcore.Run) {
 		}
 	}
 	p := &Provider{src: dir, p: rec, l: zerolog.Nop(), configured: true}
+	// in half of the runs the events travel through the provider's own watch loop (a watcher value with nothing but
+	// its channels): an event with no operation bit is ignored by the handler, and since the loop handles one event at a
+	// time, its reception means that the event before has been handled completely
+	viaLoop := s.Draw(2, "through-watch-loop") == 1
+	loopDone := make(chan struct{})
+	if viaLoop {
+		p.w = &fsnotify.Watcher{Events: make(chan fsnotify.Event), Errors: make(chan error)}
+		go func() { p.watchFiles(); close(loopDone) }()
+		defer func() { close(p.w.Events); <-loopDone }()
+		r.Count("runs-through-the-watch-loop", 1)
+	}
 	// what the provider observes when it looks at a file now
 	fold := func(f *fsFile, how string) {
 		data, err := os.ReadFile(f.path)
@@ -126,7 +137,10 @@ func fsProvSim(r *simcore.Run) {
 			fold(f, strings.ToLower(e.ev.Op.String())+" event")
 		}
 		r.Logf("deliver %s %s", e.ev.Op, filepath.Base(e.ev.Name))
-		if err := p.ruleSetsChanged(e.ev); err != nil {
+		if viaLoop {
+			p.w.Events <- e.ev
+			p.w.Events <- fsnotify.Event{Name: filepath.Join(dir, "barrier")}
+		} else if err := p.ruleSetsChanged(e.ev); err != nil {
 			r.Logf("  provider reported: %v", strings.ReplaceAll(firstLine(err.Error()), dir, "<dir>"))
 		}
 		return check("after " + e.ev.Op.String() + " " + filepath.Base(e.ev.Name))
